@@ -158,7 +158,7 @@ func (c *c27Case) dialClientStream(id int, outcome string) (net.Conn, error) {
 
 func TestC27(t *testing.T) {
 	rec := ev.New(t, "C27")
-	rec.Rule("rapid-generated route tables for a hostname H: each of the 3 slots is empty, a KV error, or a route through the local node (client dial outcome: ok, no-direct [plain, wrapped, client-not-connected], dial error, connection closed before the link frame) or through a remote node (chord dial error / no-direct; scripted status OK, NO_DIRECT, UNKNOWN_ERROR, unknown code, garbage, EOF; or a second real Server whose handleProxyConn dials the client with outcome ok / no-direct / error, or which is not the route's tunnel destination); a decoy hostname with its own client is always present; fresh Server per case, on which 1..3 requests for H are made with generated contexts: live, cancelled before the call, or cancelled while the route lookup is in flight (the KV fake holds the lookup until the request is abandoned, then answers according to the context it was given); every live request is judged against the hostname's routes, whatever earlier abandoned requests did. Non-trivial: at least two routes with different outcomes. Distinct = (slot table, request contexts so far).")
+	rec.Rule("rapid-generated route tables for a hostname H: each of the 3 slots is empty, a KV error, or a route through the local node (client dial outcome: ok, no-direct [plain, wrapped, client-not-connected], dial error, connection closed before the link frame) or through a remote node (chord dial error / no-direct; scripted status OK, NO_DIRECT, UNKNOWN_ERROR, unknown code, garbage, EOF; or a second real Server whose handleProxyConn dials the client with outcome ok / no-direct / error, or which is not the route's tunnel destination); a decoy hostname with its own client is always present (in one case in four it differs from H only in letter case); fresh Server per case, on which 1..3 requests for H are made with generated contexts: live, cancelled before the call, or cancelled while the route lookup is in flight (the KV fake holds the lookup until the request is abandoned, then answers according to the context it was given); every live request is judged against the hostname's routes, whatever earlier abandoned requests did. Non-trivial: at least two routes with different outcomes. Distinct = (slot table, request contexts so far).")
 	rec.Assume("order among several local (or several remote) routes is unspecified; the oracle only demands all local attempts before any remote attempt",
 		"routes exist but none is reachable: not-connected is demanded when at least one attempt ended in no-direct (DESIGN §3 C27); when every attempt failed with another error either not-connected or not-found is accepted (class all-generic-errors, reported)",
 		"waiting for the link frame on the harness end uses a 60 s budget; expiry is counted inconclusive")
@@ -190,6 +190,13 @@ func TestC27(t *testing.T) {
 	ev.RapidCheck(t, 1500, 40000, func(t *rapid.T) {
 		caseNo++
 		host := fmt.Sprintf("c27-%d.example", caseNo)
+		decoyHost := "decoy.example"
+		if rapid.IntRange(0, 3).Draw(t, "decoyDiffersOnlyInCase") == 0 {
+			// routing keys are exact strings: a hostname that differs from a published one only in
+			// letter case is another hostname
+			host = fmt.Sprintf("C27-%d.Example", caseNo)
+			decoyHost = strings.ToLower(host)
+		}
 		cs := &c27Case{ends: map[int]*c27End{}, byChord: map[string]int{}, outcome: map[int]string{}}
 		curMu.Lock()
 		cur = cs
@@ -200,9 +207,9 @@ func TestC27(t *testing.T) {
 		defer fx.close()
 
 		// decoy: another hostname with a reachable local client that must never be dialled
-		decoy := &protocol.TunnelRoute{ClientDestination: &protocol.Node{Id: 900, Address: "decoy-client", Rendezvous: true}, ChordDestination: selfC, TunnelDestination: selfT, Hostname: "decoy.example"}
+		decoy := &protocol.TunnelRoute{ClientDestination: &protocol.Node{Id: 900, Address: "decoy-client", Rendezvous: true}, ChordDestination: selfC, TunnelDestination: selfT, Hostname: decoyHost}
 		db, _ := decoy.MarshalVT()
-		fx.kv.MemoryKV.Put(context.Background(), []byte(tun.RoutingKey("decoy.example", 1)), db)
+		fx.kv.MemoryKV.Put(context.Background(), []byte(tun.RoutingKey(decoyHost, 1)), db)
 		cs.outcome[900] = "ok"
 
 		slots := make([]c27Slot, 3)
